@@ -50,27 +50,29 @@ func intsStr(l []int) string {
 
 // run holds one history being executed against implementation and model.
 type run struct {
-	w          *world
-	drv        *hx.Driver
-	prev       map[string]string // worker -> task assignments of the previous dump
-	last       string            // last canonical dump
-	fail       *failure
-	flags      map[string]bool
-	steps      int
-	tie        bool
-	streams    map[int]*streamMon // C02 monitor state per client
-	doneTask   map[int]string     // op name -> final payload "code/tok" (C03 same-final, C01 no restart)
-	hist       *hx.Result
-	prevSt     *scheduler.VerifState // state before the current segment (for per-decision checks)
-	noModel    bool                  // monitor-only mode: used to search for a failing input after a mismatch
-	onlyProp   string                // when set, findings and structural invariants of other properties do not end the run
-	syncRet    map[string]int64      // worker -> fake-clock time its last Synchronize call returned
-	syncActive map[string]bool       // workers that were inside Synchronize at the end of the previous segment
-	primary    string                // op line of the segment being judged
-	issues     map[string]int        // task (lowest op) -> times its current worker was told to execute it
-	issuedTo   map[string]string     // task (lowest op) -> that worker
-	holdThis   bool                  // the op being applied keeps woken-up workers suspended before they re-take the scheduler lock
-	pending    *failure              // a model/implementation disagreement that does not stop the history: a violation found later in the same history takes precedence (see finish)
+	w            *world
+	drv          *hx.Driver
+	prev         map[string]string // worker -> task assignments of the previous dump
+	last         string            // last canonical dump
+	fail         *failure
+	flags        map[string]bool
+	steps        int
+	tie          bool
+	streams      map[int]*streamMon // C02 monitor state per client
+	doneTask     map[int]string     // op name -> final payload "code/tok" (C03 same-final, C01 no restart)
+	hist         *hx.Result
+	prevSt       *scheduler.VerifState  // state before the current segment (for per-decision checks)
+	noModel      bool                   // monitor-only mode: used to search for a failing input after a mismatch
+	onlyProp     string                 // when set, findings and structural invariants of other properties do not end the run
+	syncRet      map[string]int64       // worker -> fake-clock time its last Synchronize call returned
+	syncActive   map[string]bool        // workers that were inside Synchronize at the end of the previous segment
+	primary      string                 // op line of the segment being judged
+	issues       map[string]int         // task (lowest op) -> times its current worker was told to execute it
+	issuedTo     map[string]string      // task (lowest op) -> that worker
+	released     bool                   // calls suspended by a hold continued in the segment being judged: events cannot be attributed to the primary op alone
+	justReleased map[string]delayedSync // delayed Synchronize calls that reached the scheduler in the segment being judged
+	holdThis     bool                   // the op being applied keeps woken-up workers suspended before they re-take the scheduler lock
+	pending      *failure               // a model/implementation disagreement that does not stop the history: a violation found later in the same history takes precedence (see finish)
 }
 
 // finish turns a pending disagreement into the history's failure when nothing worse was found.
@@ -248,6 +250,11 @@ func (r *run) window(primary string, an string) {
 		// were still on their way back to the scheduler lock; let those continue now
 		r.w.clk.release()
 		synctest.Wait()
+		r.justReleased, r.w.delayed = r.w.delayed, nil
+		r.released = true
+	} else {
+		r.justReleased = nil
+		r.released = false
 	}
 	watchNote("")
 	r.steps++
@@ -269,7 +276,9 @@ func (r *run) window(primary string, an string) {
 	r.primary = primary
 	r.monitor(impl, st, dump)
 	for _, f := range windowChecks {
-		if r.fail == nil {
+		// (a delayed call enters the scheduler with the time it read earlier: the per-decision
+		// checks assume the segment's own time)
+		if r.fail == nil && !r.released {
 			f(r, primary, r.prevSt, st, impl)
 		}
 	}
@@ -408,6 +417,7 @@ func (r *run) apply(line string) {
 	an := "sel=0 bg=- retry=0"
 	w.an.sel, w.an.bg, w.an.retry, w.an.dur = 0, -1, false, 0
 	r.holdThis = false
+	w.delayNext = false
 	var stick []time.Duration // regpq only: worker invocation stickiness limits (seconds); not part of the Sched model
 	for _, f := range kv {
 		p := strings.SplitN(f, "=", 2)
@@ -429,7 +439,8 @@ func (r *run) apply(line string) {
 		case "retry":
 			w.an.retry = p[1] == "1"
 		case "hold": // monitor-only histories: see fakeClock.hold
-			r.holdThis = p[1] == "1" && r.noModel
+			r.holdThis = (p[1] == "1" || p[1] == "2") && r.noModel
+			w.delayNext = p[1] == "2" && r.noModel && args[1] == "sync"
 		}
 	}
 	bg := "-"
@@ -618,7 +629,9 @@ func (r *run) quiesce() {
 	w := r.w
 	w.slowSends = false
 	r.holdThis = false
-	w.clk.release()
+	if w.clk.holding() {
+		r.apply("0 touch") // its window lets the suspended calls continue and judges that segment accordingly
+	}
 	for len(w.sending) > 0 && r.fail == nil {
 		for c := range w.sending {
 			r.apply(fmt.Sprintf("0 sendrel %d", c))
